@@ -101,7 +101,7 @@ def _gen_seeded():
     caught = sum(1 for m_ in metas if m_.get("verdict", "").startswith("CAUGHT"))
     missed = sum(1 for m_ in metas if m_.get("verdict", "").startswith("MISSED"))
     undec = sum(1 for m_ in metas if m_.get("verdict", "").startswith("undecided"))
-    first_ok = sum(1 for m_ in metas if m_.get("verdict", "").startswith("CAUGHT") and not m_.get("history"))
+    first_ok = sum(1 for m_ in metas if m_.get("verdict", "").startswith("CAUGHT") and (not m_.get("history") or m_.get("history", "").startswith("caught on first run")))
     summ = ("**Summary:** %d seeded changes; on the machinery as committed: %d caught (exit 1, named obligation), %d missed (exit 0), "
             "%d undecided (exit 2). At first contact only %d of the %d were caught: the others were missed or undecided because the "
             "function they touch was not under contract yet or the unit's environment was too narrow to type the changed code; "
